@@ -980,3 +980,30 @@ def rule_reserved_test_reachable(ctx):
                 ctx.holds("RESERVED", key, f.where(c[5]), "is_reserved(%s) is reachable for non-empty classes" % v, nontrivial=True)
     ctx.floor("RESERVED", 2, n, "(is_reserved calls in hrepack)")
     return n
+
+
+# ---------------------------------------------------------------------------------------------------------------------
+def rule_out_param_not_reseated(ctx):
+    """OUTPARAM (C18): a pointer parameter through which a routine returns a value (`*p = v` somewhere in the routine) is never
+    assigned itself.  `p = CONSTANT;` where the sibling branches write `*p = CONSTANT;` loses the result and, for the constant 0,
+    turns the next `*p` into a NULL dereference."""
+    prog = ctx.prog
+    n = 0
+    for f in prog.funcs:
+        if not any(d in f.rel for d in ("mfhdf/hrepack/", "mfhdf/hdiff/", "mfhdf/hdp/")):
+            continue
+        ptr_params = {p[0] for p in f.params if "*" in str(p[1])}
+        if not ptr_params:
+            continue
+        outs = {base_var(x[2]) for _b, _i, _s, x in f.nodes(True) if x[0] == "asg" and kind(strip(x[2])) == "deref" and base_var(x[2]) in ptr_params}
+        for v in sorted(outs):
+            n += 1
+            key = "OUTPARAM:%s:%s" % (f.name, v)
+            bad = [x for _b, _i, _s, x in f.nodes(True) if x[0] == "asg" and x[1] == "=" and kind(strip(x[2])) == "var" and strip(x[2])[1] == v and is_int(x[3])]
+            if bad:
+                ctx.violated("OUTPARAM", key, f.where(bad[0][4]), "`%s` assigns to the pointer parameter itself; everywhere else %s writes through it (`*%s = ...`): the result is lost and "
+                             "a later `*%s` dereferences the constant" % (render(bad[0])[:40], f.name, v, v))
+            else:
+                ctx.holds("OUTPARAM", key, f.where(), "`%s` is only written through", nontrivial=False)
+    ctx.floor("OUTPARAM", 20, n, "(pointer out-parameters in the tools)")
+    return n
